@@ -287,7 +287,10 @@ class World:
             res.mnr = len(mnr)
             for i, node in mnr.items():
                 if effect.loose(i) in invoked_set:
-                    V.append(viol('effect.unjustified_rerun', {'kind': i[0]},
+                    facts = {'kind': i[0]}
+                    if effect.ghost_dirsize(node, files_at_start):
+                        facts['asked_the_size_of_a_directory_absent_when_the_rebuild_starts'] = True
+                    V.append(viol('effect.unjustified_rerun', facts,
                                   call=[self.sb.rel(i[1]) if i[1] else None, effect.fname_of(node)]))
             unchanged = (effect.root_equal(prev['trace'], res.ref_run.trace) and
                          effect.clear(res.ref_run.trace, self.sb.R, self.mask_names) and
@@ -298,7 +301,10 @@ class World:
                 want = [effect.loose(i) for i in effect.predict_unchanged(prev['trace'])]
                 res.unchanged = True
                 if invoked != want:
-                    V.append(viol('effect.unchanged_rebuild_log', {},
+                    facts = {}
+                    if effect.ghost_dirsize(prev['trace'], files_at_start):
+                        facts['asked_the_size_of_a_directory_absent_when_the_rebuild_starts'] = True
+                    V.append(viol('effect.unchanged_rebuild_log', facts,
                                   invoked=[[self.sb.rel(i[1]) if i[1] else None, str(i[2])[:60]] for i in invoked],
                                   expected=[[self.sb.rel(i[1]) if i[1] else None, str(i[2])[:60]] for i in want]))
             # outputs whose producer did not run keep inode and mtime
